@@ -70,13 +70,18 @@ structure Inv (s : St) : Prop where
   /-- the table a writer picked is mem, imm or already in the version -/
   tbl_live : ∀ w ∈ s.writers, w.tbl ∈ liveTables s
   inst : s.installed = true → ∃ t, s.imm = some t ∧ t ∈ s.flushed
+  /-- a reader that took its tree version and mem / imm with no `fClear` in between searches the
+      table of every write its timestamp covers -/
   rd : ∀ r ∈ s.readers, r.2.ts ≤ s.seqNo ∧ (s.completed = true → r.2.ts ≤ s.visible) ∧
-        ∀ w ∈ s.writers, w.seq ≤ r.2.ts → w.tbl ∈ r.2.tbls
+        (r.2.clean = true → ∀ w ∈ s.writers, w.seq ≤ r.2.ts → w.tbl ∈ r.2.tbls)
   /-- nothing in a table was invented -/
   from_batch : ∀ te ∈ s.ents, ∃ w ∈ s.writers, w.seq = te.2.seq ∧ w.tbl = te.1 ∧ (te.2.key, te.2.val) ∈ w.batch
+  /-- a tree version a reader holds, with no `fClear` since it was taken, lacks of the flushed
+      tables at most the one that is still `imm` -/
+  tr : ∀ p ∈ s.trees, p.2.2 = true → ∀ t ∈ s.flushed, t ∈ p.2.1 ∨ s.imm = some t
 
 theorem inv_init (c : Bool) (seq mem : Nat) : Inv (init c seq mem) := by
-  refine ⟨Nat.le_refl _, ?_, ?_, ?_, ?_, ?_, ?_, ?_, ?_, ?_, ?_, ?_, ?_, ?_⟩ <;> simp [init]
+  refine ⟨Nat.le_refl _, ?_, ?_, ?_, ?_, ?_, ?_, ?_, ?_, ?_, ?_, ?_, ?_, ?_, ?_⟩ <;> simp [init]
 
 theorem fm_cons_f (m : Nat) (tl : List Ticket) :
     (Ticket.f m :: tl).filterMap Ticket.wseq? = tl.filterMap Ticket.wseq? := by
@@ -105,7 +110,7 @@ theorem inv_wLog {s s' : St} (h : Inv s) (seq : Nat) (hs : step s (.wLog seq) = 
   · split at hs
     · cases hs
       exact ⟨h.vis_le, h.wbound, h.wuniq, h.placed, h.todo_sub, h.done, h.fin_vis, h.qsorted, h.qbound, h.qall,
-        h.tbl_live, h.inst, h.rd, h.from_batch⟩
+        h.tbl_live, h.inst, h.rd, h.from_batch, h.tr⟩
     · cases hs
   · cases hs
 
@@ -120,7 +125,7 @@ theorem inv_fHead {s s' : St} (h : Inv s) (m : Nat) (hs : step s (.fHead m) = so
       | nil => rw [hql] at hq; cases hq
       | cons a tl => rw [hql] at hq; simp at hq; exact ⟨tl, by rw [hq]⟩
     refine ⟨h.vis_le, h.wbound, h.wuniq, h.placed, h.todo_sub, h.done, h.fin_vis, ?_, ?_, ?_,
-      h.tbl_live, h.inst, h.rd, h.from_batch⟩
+      h.tbl_live, h.inst, h.rd, h.from_batch, h.tr⟩
     · have := h.qsorted
       rw [htl, fm_cons_f] at this
       simpa [htl] using this
@@ -135,13 +140,13 @@ theorem inv_fHead {s s' : St} (h : Inv s) (m : Nat) (hs : step s (.fHead m) = so
       · simpa [htl] using h1
   · cases hs
 
-theorem inv_fInstall {s s' : St} (h : Inv s) (o : Nat) (hs : step s (.fInstall o) = some s') : Inv s' := by
+theorem inv_fInstall {s s' : St} (h : Inv s) (o vid : Nat) (hs : step s (.fInstall o vid) = some s') : Inv s' := by
   simp only [step] at hs
   split at hs
   · rename_i hc
     cases hs
     refine ⟨h.vis_le, h.wbound, h.wuniq, h.placed, h.todo_sub, h.done, h.fin_vis, h.qsorted, h.qbound, h.qall,
-      ?_, ?_, h.rd, h.from_batch⟩
+      ?_, ?_, h.rd, h.from_batch, ?_⟩
     · intro w hw
       have := h.tbl_live w hw
       simp only [liveTables, List.mem_cons, List.mem_append] at this ⊢
@@ -151,6 +156,12 @@ theorem inv_fInstall {s s' : St} (h : Inv s) (o : Nat) (hs : step s (.fInstall o
       · exact Or.inr (Or.inr (Or.inr h1))
     · intro _
       exact ⟨o, hc.1, List.mem_cons_self ..⟩
+    · intro p hp hcl t ht
+      have ht' : t ∈ o :: s.flushed := ht
+      simp only [List.mem_cons] at ht'
+      rcases ht' with rfl | h1
+      · exact Or.inr hc.1
+      · exact h.tr p hp hcl t h1
   · cases hs
 
 theorem inv_fClear {s s' : St} (h : Inv s) (o : Nat) (hs : step s (.fClear o) = some s') : Inv s' := by
@@ -159,7 +170,7 @@ theorem inv_fClear {s s' : St} (h : Inv s) (o : Nat) (hs : step s (.fClear o) = 
   · rename_i hc
     cases hs
     refine ⟨h.vis_le, h.wbound, h.wuniq, h.placed, h.todo_sub, h.done, h.fin_vis, h.qsorted, h.qbound, h.qall,
-      ?_, ?_, h.rd, h.from_batch⟩
+      ?_, ?_, h.rd, h.from_batch, ?_⟩
     · intro w hw
       have := h.tbl_live w hw
       obtain ⟨t, ht, htf⟩ := h.inst hc.2
@@ -169,32 +180,73 @@ theorem inv_fClear {s s' : St} (h : Inv s) (o : Nat) (hs : step s (.fClear o) = 
       · simp at h1; right; simp; rw [h1]; exact htf
       · right; simp; exact h1
     · intro hi; cases hi
+    · intro p hp hcl
+      have hp' : p ∈ s.trees.map (fun p => (p.1, (p.2.1, false))) := hp
+      obtain ⟨q, _, rfl⟩ := List.mem_map.mp hp'
+      cases hcl
+  · cases hs
+
+theorem inv_tInstall {s s' : St} (h : Inv s) (vid : Nat) (hs : step s (.tInstall vid) = some s') : Inv s' := by
+  simp only [step] at hs
+  split at hs
+  · cases hs
+    exact ⟨h.vis_le, h.wbound, h.wuniq, h.placed, h.todo_sub, h.done, h.fin_vis, h.qsorted, h.qbound, h.qall,
+      h.tbl_live, h.inst, h.rd, h.from_batch, h.tr⟩
+  · cases hs
+
+theorem inv_rTree {s s' : St} (h : Inv s) (rid vid : Nat) (hs : step s (.rTree rid vid) = some s') : Inv s' := by
+  simp only [step] at hs
+  split at hs
+  · cases hs
+    refine ⟨h.vis_le, h.wbound, h.wuniq, h.placed, h.todo_sub, h.done, h.fin_vis, h.qsorted, h.qbound, h.qall,
+      h.tbl_live, h.inst, h.rd, h.from_batch, ?_⟩
+    intro p hp hcl t ht
+    have hp' : p ∈ (rid, (s.flushed, true)) :: s.trees.filter (fun p => p.1 ≠ rid) := hp
+    simp only [List.mem_cons] at hp'
+    rcases hp' with rfl | h1
+    · exact Or.inl ht
+    · exact h.tr p (List.mem_filter.mp h1).1 hcl t ht
   · cases hs
 
 theorem inv_rSnap {s s' : St} (h : Inv s) (rid ts mem : Nat) (imm : Bool)
     (hs : step s (.rSnap rid ts mem imm) = some s') : Inv s' := by
   simp only [step] at hs
   split at hs
-  · rename_i hc
-    cases hs
-    refine ⟨h.vis_le, h.wbound, h.wuniq, h.placed, h.todo_sub, h.done, h.fin_vis, h.qsorted, h.qbound, h.qall,
-      h.tbl_live, h.inst, ?_, h.from_batch⟩
-    intro r hr
-    simp only [List.mem_cons] at hr
-    rcases hr with rfl | hr
-    · have hts : ts = readTs s := hc.1
-      refine ⟨?_, ?_, ?_⟩
-      · show ts ≤ s.seqNo
-        rw [hts]; unfold readTs
-        split
-        · exact h.vis_le
-        · exact Nat.le_refl _
-      · intro hcomp
-        show ts ≤ s.visible
-        rw [hts]; unfold readTs; rw [if_pos hcomp]; exact Nat.le_refl _
-      · intro w hw _
-        exact h.tbl_live w hw
-    · exact h.rd r hr
+  · rename_i p hfind
+    have hp : p ∈ s.trees := List.mem_of_find?_eq_some hfind
+    split at hs
+    · rename_i hc
+      cases hs
+      refine ⟨h.vis_le, h.wbound, h.wuniq, h.placed, h.todo_sub, h.done, h.fin_vis, h.qsorted, h.qbound, h.qall,
+        h.tbl_live, h.inst, ?_, h.from_batch, ?_⟩
+      · intro r hr
+        simp only [List.mem_cons] at hr
+        rcases hr with rfl | hr
+        · have hts : ts = readTs s := hc.1
+          refine ⟨?_, ?_, ?_⟩
+          · show ts ≤ s.seqNo
+            rw [hts]; unfold readTs
+            split
+            · exact h.vis_le
+            · exact Nat.le_refl _
+          · intro hcomp
+            show ts ≤ s.visible
+            rw [hts]; unfold readTs; rw [if_pos hcomp]; exact Nat.le_refl _
+          · intro hcl w hw _
+            have hcl' : p.2.2 = true := hcl
+            have hl := h.tbl_live w hw
+            show w.tbl ∈ s.memId :: (s.imm.toList ++ p.2.1)
+            simp only [liveTables, List.mem_cons, List.mem_append] at hl ⊢
+            rcases hl with h1 | h1 | h1
+            · exact Or.inl h1
+            · exact Or.inr (Or.inl h1)
+            · rcases h.tr p hp hcl' w.tbl h1 with h2 | h2
+              · exact Or.inr (Or.inr h2)
+              · right; left; rw [h2]; simp
+        · exact h.rd r hr
+      · intro q hq hcl t ht
+        exact h.tr q (List.mem_filter.mp hq).1 hcl t ht
+    · cases hs
   · cases hs
 
 theorem inv_fRotate {s s' : St} (h : Inv s) (n o : Nat) (hs : step s (.fRotate n o) = some s') : Inv s' := by
@@ -203,7 +255,7 @@ theorem inv_fRotate {s s' : St} (h : Inv s) (n o : Nat) (hs : step s (.fRotate n
   · rename_i hc
     cases hs
     obtain ⟨himm, _, _⟩ := hc
-    refine ⟨?_, ?_, h.wuniq, h.placed, h.todo_sub, h.done, h.fin_vis, ?_, ?_, ?_, ?_, ?_, ?_, h.from_batch⟩
+    refine ⟨?_, ?_, h.wuniq, h.placed, h.todo_sub, h.done, h.fin_vis, ?_, ?_, ?_, ?_, ?_, ?_, h.from_batch, ?_⟩
     · show s.visible ≤ s.seqNo + 1
       have := h.vis_le; omega
     · intro w hw
@@ -233,6 +285,10 @@ theorem inv_fRotate {s s' : St} (h : Inv s) (n o : Nat) (hs : step s (.fRotate n
     · intro r hr
       obtain ⟨h1, h2, h3⟩ := h.rd r hr
       exact ⟨by show r.2.ts ≤ s.seqNo + 1; omega, h2, h3⟩
+    · intro p hp hcl t ht
+      rcases h.tr p hp hcl t ht with h1 | h1
+      · exact Or.inl h1
+      · rw [himm] at h1; cases h1
   · cases hs
 
 theorem inv_wBegin {s s' : St} (h : Inv s) (seq tbl : Nat) (batch : List (Nat × Option Nat))
@@ -243,7 +299,7 @@ theorem inv_wBegin {s s' : St} (h : Inv s) (seq tbl : Nat) (batch : List (Nat ×
     cases hs
     obtain ⟨hseq, htbl⟩ := hc
     have hvis := h.vis_le
-    refine ⟨?_, ?_, ?_, ?_, ?_, ?_, ?_, ?_, ?_, ?_, ?_, h.inst, ?_, ?_⟩
+    refine ⟨?_, ?_, ?_, ?_, ?_, ?_, ?_, ?_, ?_, ?_, ?_, h.inst, ?_, ?_, h.tr⟩
     · show s.visible ≤ seq
       omega
     · intro w hw
@@ -324,11 +380,11 @@ theorem inv_wBegin {s s' : St} (h : Inv s) (seq tbl : Nat) (batch : List (Nat ×
     · intro r hr
       obtain ⟨h1, h2, h3⟩ := h.rd r hr
       refine ⟨by show r.2.ts ≤ seq; omega, h2, ?_⟩
-      intro w hw hle
+      intro hcl w hw hle
       have hw' : w ∈ s.writers ++ [(⟨seq, tbl, batch, false, batch⟩ : Writer)] := hw
       rw [List.mem_append] at hw'
       rcases hw' with h4 | h4
-      · exact h3 w h4 hle
+      · exact h3 hcl w h4 hle
       · simp at h4; subst h4; simp at hle; omega
     · intro te hte
       obtain ⟨w, hw, h1⟩ := h.from_batch te hte
@@ -349,7 +405,7 @@ theorem inv_wIns {s s' : St} (h : Inv s) (seq idx : Nat) (hs : step s (.wIns seq
         have honly : ∀ w ∈ s.writers, w.seq = seq → w = w0 :=
           fun w hw hsq => uniq_seq s.writers h.wuniq w hw w0 hw0 (by rw [hsq, hseq0])
         have hsq : ∀ w : Writer, ({ w with todo := rest } : Writer).seq = w.seq := fun _ => rfl
-        refine ⟨h.vis_le, ?_, ?_, ?_, ?_, ?_, ?_, h.qsorted, h.qbound, ?_, ?_, h.inst, ?_, ?_⟩
+        refine ⟨h.vis_le, ?_, ?_, ?_, ?_, ?_, ?_, h.qsorted, h.qbound, ?_, ?_, h.inst, ?_, ?_, h.tr⟩
         · intro x hx
           obtain ⟨w, hw, rfl⟩ := mem_updWriter hx
           split <;> exact h.wbound w hw
@@ -409,13 +465,13 @@ theorem inv_wIns {s s' : St} (h : Inv s) (seq idx : Nat) (hs : step s (.wIns seq
         · intro r hr
           obtain ⟨h1, h2, h3⟩ := h.rd r hr
           refine ⟨h1, h2, ?_⟩
-          intro x hx hle
+          intro hcl x hx hle
           obtain ⟨w, hw, rfl⟩ := mem_updWriter hx
           by_cases hws : w.seq = seq
           · simp only [hws, if_true] at hle ⊢
-            exact h3 w hw (by rw [hws]; exact hle)
+            exact h3 hcl w hw (by rw [hws]; exact hle)
           · simp only [hws, if_false] at hle ⊢
-            exact h3 w hw hle
+            exact h3 hcl w hw hle
         · intro te hte
           have hte' : te ∈ (w0.tbl, (⟨k, seq, v⟩ : Entry)) :: s.ents := hte
           simp only [List.mem_cons] at hte'
@@ -466,7 +522,7 @@ theorem inv_wFin {s s' : St} (h : Inv s) (seq : Nat) (hs : step s (.wFin seq) = 
         · have hs := h.qsorted
           rw [htl, fm_cons_w, List.pairwise_cons] at hs
           exact ⟨hs.1 _ (List.mem_filterMap.mpr ⟨_, h1, rfl⟩), h1⟩
-      refine ⟨?_, ?_, ?_, ?_, ?_, ?_, ?_, ?_, ?_, ?_, ?_, h.inst, ?_, ?_⟩
+      refine ⟨?_, ?_, ?_, ?_, ?_, ?_, ?_, ?_, ?_, ?_, ?_, h.inst, ?_, ?_, h.tr⟩
       · show seq ≤ s.seqNo
         have := h.wbound w0 hw0; omega
       · intro x hx
@@ -542,13 +598,13 @@ theorem inv_wFin {s s' : St} (h : Inv s) (seq : Nat) (hs : step s (.wFin seq) = 
           show r.2.ts ≤ seq
           have := h2 hcmp
           omega
-        · intro x hx hle
+        · intro hcl x hx hle
           obtain ⟨w, hw, rfl⟩ := mem_updWriter hx
           by_cases hws : w.seq = seq
           · simp only [hws, if_true] at hle ⊢
-            exact h3 w hw (by rw [hws]; exact hle)
+            exact h3 hcl w hw (by rw [hws]; exact hle)
           · simp only [hws, if_false] at hle ⊢
-            exact h3 w hw hle
+            exact h3 hcl w hw hle
       · intro te hte
         obtain ⟨w, hw, h1, h2, h3⟩ := h.from_batch te hte
         refine ⟨_, updWriter_mem hw, ?_⟩
@@ -566,8 +622,10 @@ theorem inv_step {s s' : St} (h : Inv s) (ev : Ev) (hs : step s ev = some s') : 
   | wFin seq => exact inv_wFin h seq hs
   | fRotate n o => exact inv_fRotate h n o hs
   | fHead m => exact inv_fHead h m hs
-  | fInstall o => exact inv_fInstall h o hs
+  | fInstall o vid => exact inv_fInstall h o vid hs
   | fClear o => exact inv_fClear h o hs
+  | tInstall vid => exact inv_tInstall h vid hs
+  | rTree rid vid => exact inv_rTree h rid vid hs
   | rSnap rid ts mem imm => exact inv_rSnap h rid ts mem imm hs
 
 theorem run_cons (s : St) (e : Ev) (es : List Ev) :
@@ -613,7 +671,7 @@ theorem mem_view {s : St} {sn : Snap} {e : Entry} :
     it — whatever the interleaving of inserts, rollover, flush and other writers -/
 theorem batch_atomic {seq0 mem0 : Nat} {evs : List Ev} {s : St}
     (hrun : run (init true seq0 mem0) evs = some s)
-    (r : Nat × Snap) (hr : r ∈ s.readers) (w : Writer) (hw : w ∈ s.writers) :
+    (r : Nat × Snap) (hr : r ∈ s.readers) (hclean : r.2.clean = true) (w : Writer) (hw : w ∈ s.writers) :
     (∀ kv ∈ w.batch, (⟨kv.1, w.seq, kv.2⟩ : Entry) ∈ view s r.2) ∨ (∀ e ∈ view s r.2, e.seq ≠ w.seq) := by
   have h := inv_run evs (inv_init true seq0 mem0) hrun
   have hc : s.completed = true := by rw [run_completed evs hrun]; rfl
@@ -624,7 +682,7 @@ theorem batch_atomic {seq0 mem0 : Nat} {evs : List Ev} {s : St}
     have hfin : w.finished = true := (h.fin_vis w hw).mpr (Nat.le_trans hle (h2 hc))
     have htodo := h.done w hw hfin
     rw [mem_view]
-    refine ⟨w.tbl, ?_, h3 w hw hle, hle⟩
+    refine ⟨w.tbl, ?_, h3 hclean w hw hle, hle⟩
     rcases h.placed w hw kv hkv with h1 | h1
     · rw [htodo] at h1; cases h1
     · exact h1
@@ -685,7 +743,7 @@ theorem view_step {s s' : St} (h : Inv s) (hc : s.completed = true) (r : Nat × 
     simp only [step] at hs; split at hs
     · cases hs; rfl
     · cases hs
-  | fInstall o =>
+  | fInstall o vid =>
     simp only [step] at hs; split at hs
     · cases hs; rfl
     · cases hs
@@ -693,9 +751,19 @@ theorem view_step {s s' : St} (h : Inv s) (hc : s.completed = true) (r : Nat × 
     simp only [step] at hs; split at hs
     · cases hs; rfl
     · cases hs
-  | rSnap rid ts mem imm =>
+  | tInstall vid =>
     simp only [step] at hs; split at hs
     · cases hs; rfl
+    · cases hs
+  | rTree rid vid =>
+    simp only [step] at hs; split at hs
+    · cases hs; rfl
+    · cases hs
+  | rSnap rid ts mem imm =>
+    simp only [step] at hs; split at hs
+    · split at hs
+      · cases hs; rfl
+      · cases hs
     · cases hs
 
 theorem readers_step {s s' : St} (r : Nat × Snap) (hr : r ∈ s.readers) (ev : Ev) (hs : step s ev = some s') :
@@ -811,14 +879,15 @@ theorem finished_le_readTs {s : St} (h : Inv s) (w : Writer) (hw : w ∈ s.write
     or a newer one — at every later moment at which it looks -/
 theorem no_stale_read {c : Bool} {seq0 mem0 : Nat} {evs : List Ev} {s : St}
     (hrun : run (init c seq0 mem0) evs = some s)
-    (r : Nat × Snap) (hr : r ∈ s.readers) (w : Writer) (hw : w ∈ s.writers) (hf : w.finished = true)
+    (r : Nat × Snap) (hr : r ∈ s.readers) (hclean : r.2.clean = true)
+    (w : Writer) (hw : w ∈ s.writers) (hf : w.finished = true)
     (hcov : w.seq ≤ r.2.ts) (k : Nat) (v : Option Nat) (hkv : (k, v) ∈ w.batch) :
     ∃ e, lookup s r.2 k = some e ∧ w.seq ≤ e.seq := by
   have h := inv_run evs (inv_init c seq0 mem0) hrun
   have htodo := h.done w hw hf
   have hin : (⟨k, w.seq, v⟩ : Entry) ∈ view s r.2 := by
     rw [mem_view]
-    refine ⟨w.tbl, ?_, (h.rd r hr).2.2 w hw hcov, hcov⟩
+    refine ⟨w.tbl, ?_, (h.rd r hr).2.2 hclean w hw hcov, hcov⟩
     rcases h.placed w hw (k, v) hkv with h1 | h1
     · rw [htodo] at h1; cases h1
     · exact h1
@@ -833,8 +902,10 @@ theorem snapshot_after_return_covers {c : Bool} {seq0 mem0 : Nat} {evs : List Ev
   have h := inv_run evs (inv_init c seq0 mem0) hrun
   simp only [step] at hs
   split at hs
-  · rename_i hc
-    rw [hc.1]; exact finished_le_readTs h w hw hf
+  · split at hs
+    · rename_i hc
+      rw [hc.1]; exact finished_le_readTs h w hw hf
+    · cases hs
   · cases hs
 
 /-- **C06, no phantom, nothing from the future**: what a lookup returns was written — it is an
@@ -874,31 +945,237 @@ theorem snapshot_covers_all {c : Bool} {seq0 mem0 : Nat} {evs : List Ev} {s : St
   obtain ⟨w, hw, _, h2, _⟩ := h.from_batch te hte
   rw [← h2]; exact h.tbl_live w hw
 
+/-! ## the tree version is taken in a step of its own -/
+
+/-- **the three-part snapshot is complete when it is clean**: a reader whose tree version and
+    mem / imm were taken with no `imm := none` step in between sees every entry of every write
+    that has returned and that its timestamp covers -/
+theorem snapshot_complete_of_clean {c : Bool} {seq0 mem0 : Nat} {evs : List Ev} {s : St}
+    (hrun : run (init c seq0 mem0) evs = some s) (r : Nat × Snap) (hr : r ∈ s.readers)
+    (hclean : r.2.clean = true) :
+    ∀ w ∈ s.writers, w.finished = true → w.seq ≤ r.2.ts →
+      ∀ kv ∈ w.batch, (⟨kv.1, w.seq, kv.2⟩ : Entry) ∈ view s r.2 := by
+  have h := inv_run evs (inv_init c seq0 mem0) hrun
+  intro w hw hf hcov kv hkv
+  have htodo := h.done w hw hf
+  rw [mem_view]
+  refine ⟨w.tbl, ?_, (h.rd r hr).2.2 hclean w hw hcov, hcov⟩
+  rcases h.placed w hw kv hkv with h1 | h1
+  · rw [htodo] at h1; cases h1
+  · exact h1
+
+theorem find_filter_ne {α : Type} (l : List (Nat × α)) (rid rid' : Nat) (hne : rid ≠ rid') :
+    (l.filter (fun p => decide (p.1 ≠ rid'))).find? (fun p => decide (p.1 = rid)) =
+      l.find? (fun p => decide (p.1 = rid)) := by
+  induction l with
+  | nil => rfl
+  | cons a t ih =>
+    by_cases h1 : a.1 = rid'
+    · have h2 : ¬ a.1 = rid := by intro h3; exact hne (h3.symm.trans h1)
+      rw [List.filter_cons_of_neg (by simp [h1]), List.find?_cons_of_neg (by simp [h2])]
+      exact ih
+    · rw [List.filter_cons_of_pos (by simp [h1])]
+      by_cases h2 : a.1 = rid
+      · rw [List.find?_cons_of_pos (by simp [h2]), List.find?_cons_of_pos (by simp [h2])]
+      · rw [List.find?_cons_of_neg (by simp [h2]), List.find?_cons_of_neg (by simp [h2])]
+        exact ih
+
+/-- the steps that leave the tree version reader `rid` holds, and its ghost flag, alone: all but
+    `fClear`, and the reader's own `rTree` / `rSnap` -/
+def keepsTree (rid : Nat) : Ev → Bool
+  | .fClear _ => false
+  | .rTree r _ => r ≠ rid
+  | .rSnap r _ _ _ => r ≠ rid
+  | _ => true
+
+theorem tree_step_keep {s s' : St} {rid : Nat} {p : Nat × (List Nat × Bool)} (ev : Ev)
+    (hk : keepsTree rid ev = true) (hs : step s ev = some s')
+    (hp : s.trees.find? (fun p => decide (p.1 = rid)) = some p) :
+    s'.trees.find? (fun p => decide (p.1 = rid)) = some p := by
+  cases ev with
+  | fClear o => simp [keepsTree] at hk
+  | rTree r v =>
+    simp only [keepsTree, decide_eq_true_eq] at hk
+    simp only [step] at hs
+    split at hs
+    · cases hs
+      show ((r, (s.flushed, true)) :: s.trees.filter (fun p => decide (p.1 ≠ r))).find? _ = _
+      rw [List.find?_cons_of_neg (by simp [hk]), find_filter_ne _ _ _ (fun h => hk h.symm)]
+      exact hp
+    · cases hs
+  | rSnap r t m i =>
+    simp only [keepsTree, decide_eq_true_eq] at hk
+    simp only [step] at hs
+    split at hs
+    · split at hs
+      · cases hs
+        show (s.trees.filter (fun p => decide (p.1 ≠ r))).find? _ = _
+        rw [find_filter_ne _ _ _ (fun h => hk h.symm)]
+        exact hp
+      · cases hs
+    · cases hs
+  | wBegin seq tbl batch =>
+    simp only [step] at hs; split at hs
+    · cases hs; exact hp
+    · cases hs
+  | wLog seq =>
+    simp only [step] at hs; split at hs
+    · split at hs
+      · cases hs; exact hp
+      · cases hs
+    · cases hs
+  | wIns seq idx =>
+    simp only [step] at hs; split at hs
+    · split at hs
+      · split at hs
+        · cases hs; exact hp
+        · cases hs
+      · cases hs
+    · cases hs
+  | wFin seq =>
+    simp only [step] at hs; split at hs
+    · split at hs
+      · cases hs; exact hp
+      · cases hs
+    · cases hs
+  | fRotate n o =>
+    simp only [step] at hs; split at hs
+    · cases hs; exact hp
+    · cases hs
+  | fHead m =>
+    simp only [step] at hs; split at hs
+    · cases hs; exact hp
+    · cases hs
+  | fInstall o vid =>
+    simp only [step] at hs; split at hs
+    · cases hs; exact hp
+    · cases hs
+  | tInstall vid =>
+    simp only [step] at hs; split at hs
+    · cases hs; exact hp
+    · cases hs
+
+theorem tree_run_keep : ∀ (evs : List Ev) {s s' : St} {rid : Nat} {p : Nat × (List Nat × Bool)},
+    (∀ e ∈ evs, keepsTree rid e = true) → run s evs = some s' →
+    s.trees.find? (fun p => decide (p.1 = rid)) = some p →
+    s'.trees.find? (fun p => decide (p.1 = rid)) = some p
+  | [], s, s', _, _, _, hr, hp => by simp only [run] at hr; cases hr; exact hp
+  | e :: es, s, s', rid, p, hk, hr, hp => by
+    rw [run_cons] at hr
+    split at hr
+    · rename_i s1 hs1
+      exact tree_run_keep es (fun e' he' => hk e' (List.mem_cons_of_mem _ he')) hr
+        (tree_step_keep e (hk e (List.mem_cons_self ..)) hs1 hp)
+    · cases hr
+
+theorem run_append : ∀ (a b : List Ev) (s : St),
+    run s (a ++ b) = match run s a with | some s' => run s' b | none => none
+  | [], b, s => by simp [run]
+  | e :: a, b, s => by
+    rw [List.cons_append, run_cons, run_cons]
+    cases step s e with
+    | none => rfl
+    | some s1 => exact run_append a b s1
+
+/-- **`snapshot_tree_consistent`**: a reader takes its tree version (`rTree`) and, in a later step,
+    mem / imm and its timestamp (`rSnap`).  If no `imm := none` step of the flush thread falls
+    between the two (nor another snapshot of the same reader) — as is the case whenever the
+    version is cloned while the store mutex is held — the three-part snapshot is clean and
+    therefore complete: every entry of every write that has returned and that the timestamp covers
+    is in mem ∪ imm ∪ tree.  Any number of writer steps, rotations, wait-list hand-offs, version
+    installs and other readers may fall in between. -/
+theorem snapshot_tree_consistent {c : Bool} {seq0 mem0 : Nat} {pre mid : List Ev} {rid vid ts mem : Nat}
+    {imm : Bool} {s : St}
+    (hrun : run (init c seq0 mem0) (pre ++ (Ev.rTree rid vid :: mid) ++ [Ev.rSnap rid ts mem imm]) = some s)
+    (hmid : ∀ e ∈ mid, keepsTree rid e = true) :
+    ∃ sn, s.readers.head? = some (rid, sn) ∧ sn.clean = true ∧ sn.ts = ts ∧
+      ∀ w ∈ s.writers, w.finished = true → w.seq ≤ ts →
+        ∀ kv ∈ w.batch, (⟨kv.1, w.seq, kv.2⟩ : Entry) ∈ view s sn := by
+  have hrun0 := hrun
+  rw [run_append] at hrun
+  split at hrun
+  · rename_i s3 h3
+    rw [run_append] at h3
+    split at h3
+    · rename_i s1 _
+      rw [run_cons] at h3
+      split at h3
+      · rename_i s2 h2
+        -- after `rTree` the reader holds (flushed, true)
+        have hp2 : s2.trees.find? (fun p => decide (p.1 = rid)) = some (rid, (s1.flushed, true)) := by
+          simp only [step] at h2
+          split at h2
+          · cases h2
+            show ((rid, (s1.flushed, true)) :: _).find? _ = _
+            rw [List.find?_cons_of_pos (by simp)]
+          · cases h2
+        have hp3 := tree_run_keep mid hmid h3 hp2
+        simp only [run] at hrun
+        split at hrun
+        · rename_i s4 h4
+          cases hrun
+          simp only [step, hp3] at h4
+          split at h4
+          · rename_i hc
+            cases h4
+            refine ⟨_, rfl, rfl, rfl, ?_⟩
+            intro w hw hf hcov
+            exact snapshot_complete_of_clean hrun0 _ (List.mem_cons_self ..) rfl w hw hf hcov
+          · cases h4
+        · cases hrun
+      · cases h3
+    · cases h3
+  · cases hrun
+
+/-- **`stale_read_as_mutated`**: the interleaving a store that clones its tree version BEFORE it
+    takes the store mutex admits — `rTree` (old version), the flush installs the new version and
+    clears `imm`, `rSnap`: the put of key 1 returned long before, the reader's timestamp covers it,
+    and the reader finds nothing (its snapshot is not clean) -/
+theorem stale_read_as_mutated :
+    (run (init true 2 1) [.wBegin 3 1 [(1, some 7)], .wLog 3, .wIns 3 0, .wFin 3, .fRotate 3 1, .fHead 3,
+        .rTree 0 0, .fInstall 1 1, .fClear 1, .rSnap 0 3 3 false]).map
+      (fun s => s.readers.map (fun r => (r.2.ts, r.2.tbls, r.2.clean, value s r.2 1)))
+      = some [(3, [3], false, none)] := by
+  decide
+
+/-- … and the same events with the clone inside the critical section (`rTree` directly before
+    `rSnap`, at either side of the flush's steps) find the value -/
+theorem same_schedule_clone_under_mutex :
+    (run (init true 2 1) [.wBegin 3 1 [(1, some 7)], .wLog 3, .wIns 3 0, .wFin 3, .fRotate 3 1, .fHead 3,
+        .rTree 0 0, .rSnap 0 3 3 true, .fInstall 1 1, .rTree 1 1, .rSnap 1 3 3 true, .fClear 1,
+        .rTree 2 1, .rSnap 2 3 3 false]).map
+      (fun s => s.readers.map (fun r => (r.1, r.2.tbls, r.2.clean, value s r.2 1)))
+      = some [(2, [3, 1], true, some 7), (1, [3, 1, 1], true, some 7), (0, [3, 1], true, some 7)] := by
+  decide
+
 /-! ## the read timestamp as found (D-6) -/
 
 /-- as found, a snapshot taken between the two inserts of one batch sees the first entry and not
     the second -/
 theorem batch_atomic_fails_as_found :
-    (run (init false 2 1) [.wBegin 3 1 [(1, some 7), (2, some 7)], .wLog 3, .wIns 3 0, .rSnap 0 3 1 false]).map
-      (fun s => (value s ⟨3, [1]⟩ 1, value s ⟨3, [1]⟩ 2)) = some (some 7, none) := by
+    (run (init false 2 1) [.wBegin 3 1 [(1, some 7), (2, some 7)], .wLog 3, .wIns 3 0, .rTree 0 0,
+        .rSnap 0 3 1 false]).map
+      (fun s => (value s ⟨3, [1], true⟩ 1, value s ⟨3, [1], true⟩ 2)) = some (some 7, none) := by
   decide
 
 /-- as found, a writer in flight when the snapshot is taken changes what the snapshot sees when it
     completes (an open cursor is not a stable snapshot) -/
 theorem snapshot_unstable_as_found :
-    (run (init false 2 1) [.wBegin 3 1 [(1, some 7)], .wLog 3, .rSnap 0 3 1 false]).map
-      (fun s => value s ⟨3, [1]⟩ 1) = some none ∧
-    (run (init false 2 1) [.wBegin 3 1 [(1, some 7)], .wLog 3, .rSnap 0 3 1 false, .wIns 3 0, .wFin 3]).map
-      (fun s => value s ⟨3, [1]⟩ 1) = some (some 7) := by
+    (run (init false 2 1) [.wBegin 3 1 [(1, some 7)], .wLog 3, .rTree 0 0, .rSnap 0 3 1 false]).map
+      (fun s => value s ⟨3, [1], true⟩ 1) = some none ∧
+    (run (init false 2 1) [.wBegin 3 1 [(1, some 7)], .wLog 3, .rTree 0 0, .rSnap 0 3 1 false, .wIns 3 0,
+        .wFin 3]).map
+      (fun s => value s ⟨3, [1], true⟩ 1) = some (some 7) := by
   decide
 
 /-- the same schedule on the repaired store: the event `rSnap … ts = 3` is not enabled (the
     timestamp is 2), and with `ts = 2` the snapshot sees nothing of the batch, before and after -/
 theorem repaired_same_schedule :
-    run (init true 2 1) [.wBegin 3 1 [(1, some 7), (2, some 7)], .wLog 3, .wIns 3 0, .rSnap 0 3 1 false] = none ∧
-    (run (init true 2 1) [.wBegin 3 1 [(1, some 7), (2, some 7)], .wLog 3, .wIns 3 0, .rSnap 0 2 1 false,
-        .wIns 3 1, .wFin 3]).map
-      (fun s => (value s ⟨2, [1]⟩ 1, value s ⟨2, [1]⟩ 2, readTs s)) = some (none, none, 3) := by
+    run (init true 2 1) [.wBegin 3 1 [(1, some 7), (2, some 7)], .wLog 3, .wIns 3 0, .rTree 0 0,
+        .rSnap 0 3 1 false] = none ∧
+    (run (init true 2 1) [.wBegin 3 1 [(1, some 7), (2, some 7)], .wLog 3, .wIns 3 0, .rTree 0 0,
+        .rSnap 0 2 1 false, .wIns 3 1, .wFin 3]).map
+      (fun s => (value s ⟨2, [1], true⟩ 1, value s ⟨2, [1], true⟩ 2, readTs s)) = some (none, none, 3) := by
   decide
 
 end Blue.KvsConc
